@@ -68,7 +68,7 @@ def programs(tier):
     for scen, steps, names in plan:
         idx = _action_index(scen, names)
         scripts = [[]] + [[[t, i]] for i in idx for t in ((0, 3) if thorough else (1,))]
-        for seed in seeds:
+        for seed in (seeds[:2] if scen.startswith("uc7") else seeds):  # (UC7 steps cost ten times a GEN step)
             for sc in scripts:
                 P.append({"scenario": scen, "seed": seed, "steps": steps, "script": sc, "episodes": 2})
     # episode schedules gone through more than twice by one environment: with the same seed, episode e+n repeats episode e
